@@ -3,9 +3,10 @@
 All rules read Weather.get_ground_speed through its *value flow* (c12.ValueCase):
 locals are followed through their unique reaching definition, tuple unpacking
 component-wise, helpers of the module through their single `return` with the
-arguments substituted, loops over a literal tuple through their unrolling — so
-the verdicts do not depend on whether a step is written inline, in a local, in
-a loop or in a helper method.
+arguments substituted, loops over a literal tuple through their unrolling, a
+local dict used only under constant keys as one local per key — so the
+verdicts do not depend on whether a step is written inline, in a local, in a
+loop, in a dict of components or in a helper method.
 
 R1  component roles (T-ROLE): heading is degrees clockwise from north, wind
     `u` is eastward and `v` northward, so the air-speed term added to the value
@@ -25,13 +26,36 @@ R3  both wind values are known NaN-free at the return on every path (must-
 R4  altitude -> Pa -> hPa: the `pressure_level` of each wind interpolation is
     exactly ISA pressure(altitude) / 100 (algebraic comparison; module
     constants folded) for both components; interpolation coordinates receive
-    matching roles; one interpolation each for 'u' and 'v'.
+    matching roles; one interpolation each for 'u' and 'v'.  The coordinates
+    are read by name however they are passed: keywords, `**` of a dict
+    display / `dict(...)` shared by both calls, xarray's mapping argument.
 R5  the trigonometric argument is the heading converted to radians (deg2rad /
     radians / x·pi/180); the selection of the heading is *run* for an absent
     azimuth, an explicit azimuth of 0 (falsy) and an ordinary explicit azimuth
     (if/else, conditional expression, `or`, rebinding of the parameter, match):
     the ground-track azimuth must be used exactly when no azimuth is given.
-R6  the hourly slice cache is keyed on what it was sliced by.
+    Values bound once per branch of the heading selection (`air = ...` under
+    `if azimuth is None` and under `else`) are read once per case of the
+    azimuth, on the graph pruned for that case (R1, R2, R5 alike).
+R6  every query interpolates both wind components in the dataset of *its*
+    time: the file YYYYMMDD.nc of the query's day under the data directory,
+    sliced with isel(valid_time=time.hour) if and only if that file has a
+    time axis.  Decided on *sequences* of queries on one object (the state
+    kept between calls - open file, cached slice, their keys, wherever they
+    live: attributes of Weather, a cache class of another module, dicts - is
+    what can go stale): the program's own statements are executed on a model
+    of the environment (calendar times that really normalise / round /
+    format; `xr.open_dataset(path)` a handle of that path with or without a
+    time axis; `.isel` a slice of a handle; numbers opaque and finite): the
+    states the object reaches within three queries are explored breadth-first
+    (equal states - same values, same sharing - once), and in every state
+    every query time is asked, over times that separate what a cache key can
+    confuse (other minute of the hour, other hour of the day, same hour of
+    another day, same day-of-month of another month, same date of another
+    year) and over mixes of files with and without a time axis.  A wrong
+    dataset is reported at the statement that put it into the state (stale
+    cache) or made it (wrong index / wrong file), with the shortest query
+    history that shows it.  Constructs the model cannot execute are undecided.
 """
 
 from __future__ import annotations
@@ -39,7 +63,7 @@ from __future__ import annotations
 import ast
 
 from ..algebra import AlgebraError, normal_form, poly_equal
-from ..astutil import call_name, kwarg, norm, walk_no_nested
+from ..astutil import call_name, norm, walk_no_nested
 from ..conform import ref_normal_form
 from ..resolve import resolve_call
 from ..roles import expr_role
@@ -118,6 +142,148 @@ def _step(F, e, at):
         if b is not None and b[2] is None:
             return b[0], b[1]
     return e, at
+
+
+def _fold(e):
+    """constant subscripts of displays folded: `(a, b)[0]` is `a`, `{'k': v}['k']` is `v` (records erased to tuples and
+    results read by field leave such terms behind once the locals are followed)"""
+    class Fd(ast.NodeTransformer):
+        def visit_Subscript(self, n):
+            n = self.generic_visit(n)
+            k = n.slice.value if isinstance(n.slice, ast.Constant) else None
+            if isinstance(n.value, (ast.Tuple, ast.List)) and isinstance(k, int) and not isinstance(k, bool) \
+                    and -len(n.value.elts) <= k < len(n.value.elts) and not any(isinstance(x, ast.Starred) for x in n.value.elts):
+                return n.value.elts[k]
+            if isinstance(n.value, ast.Dict) and isinstance(k, str) and None not in n.value.keys:
+                hits = [v for kk, v in zip(n.value.keys, n.value.values) if isinstance(kk, ast.Constant) and kk.value == k]
+                if hits and all(isinstance(kk, ast.Constant) for kk in n.value.keys):
+                    return hits[-1]
+            return n
+
+        def visit_Lambda(self, n):
+            return n
+    return Fd().visit(e)
+
+
+def _call_kwargs(c):
+    """keyword arguments of a call by name, `**` of a dict display / `dict(...)` call / `{**a, ...}` merged in the order
+    Python merges them; None when an argument set cannot be read (a `**` of something that is not a display)"""
+    out = {}
+
+    def spread(v):
+        if isinstance(v, ast.Dict):
+            for k, x in zip(v.keys, v.values):
+                if k is None:
+                    if not spread(x):
+                        return False
+                elif isinstance(k, ast.Constant) and isinstance(k.value, str):
+                    out[k.value] = x
+                else:
+                    return False
+            return True
+        if isinstance(v, ast.Call) and isinstance(v.func, ast.Name) and v.func.id == 'dict' and len(v.args) <= 1:
+            if v.args and not spread(v.args[0]):
+                return False
+            return keywords(v)
+        return False
+
+    def keywords(call):
+        for k in call.keywords:
+            if k.arg is None:
+                if not spread(k.value):
+                    return False
+            else:
+                out[k.arg] = k.value
+        return True
+    # xarray: interp(coords=None, method=..., **coords_kwargs) - the mapping may also be the first argument
+    pos = list(c.args[:1]) if isinstance(c.func, ast.Attribute) and c.func.attr == 'interp' else []
+    if len(c.args) > len(pos) or any(isinstance(a, ast.Starred) for a in c.args):
+        return None
+    for a in pos:
+        if not spread(a):
+            return None
+    if not keywords(c):
+        return None
+    if isinstance(c.func, ast.Attribute) and c.func.attr == 'interp' and 'coords' in out:
+        given = out.pop('coords')
+        rest = dict(out)
+        out.clear()
+        if not spread(given):
+            return None
+        out.update(rest)
+    return out
+
+
+def scalarize_local_dicts(fn):
+    """`fn` (a private copy) with every local dict that is only ever used element-wise under constant keys - bound once
+    to a dict display / `dict(...)` with constant keys (or empty), every other occurrence `d['k']` read or stored -
+    replaced by one local per key (`d['k']` becomes `d__k`).  Such a dict is a bundle of independent variables; as
+    variables the value flow and the NaN analysis follow them."""
+    names = {}
+    for x in walk_no_nested(fn):
+        if isinstance(x, ast.Name):
+            names.setdefault(x.id, []).append(x)
+    nested = {y.id for x in ast.walk(fn) if isinstance(x, (ast.FunctionDef, ast.AsyncFunctionDef, ast.Lambda, ast.ClassDef)) and x is not fn
+              for y in ast.walk(x) if isinstance(y, ast.Name)}
+    params = {a.arg for a in fn.args.posonlyargs + fn.args.args + fn.args.kwonlyargs}
+    parent = {}
+    for x in ast.walk(fn):
+        for ch in ast.iter_child_nodes(x):
+            parent[id(ch)] = x
+
+    def items_of(v):
+        if isinstance(v, ast.Dict) and all(isinstance(k, ast.Constant) and isinstance(k.value, (str, int)) for k in v.keys):
+            return [(k.value, x) for k, x in zip(v.keys, v.values)]
+        if isinstance(v, ast.Call) and isinstance(v.func, ast.Name) and v.func.id == 'dict' and not v.args and all(k.arg for k in v.keywords):
+            return [(k.arg, k.value) for k in v.keywords]
+        return None
+
+    done = False
+    for d, occ in names.items():
+        if d in nested or d in params:
+            continue
+        stores = [x for x in occ if isinstance(x.ctx, ast.Store)]
+        if len(stores) != 1 or any(isinstance(x.ctx, ast.Del) for x in occ):
+            continue
+        st = parent.get(id(stores[0]))
+        if isinstance(st, ast.Assign) and len(st.targets) == 1 and st.targets[0] is stores[0]:
+            items = items_of(st.value)
+        elif isinstance(st, ast.AnnAssign) and st.target is stores[0] and st.value is not None:
+            items = items_of(st.value)
+        else:
+            continue
+        if items is None:
+            continue
+        uses = [x for x in occ if x is not stores[0]]
+        subs = [parent.get(id(x)) for x in uses]
+        if not uses or not all(isinstance(p, ast.Subscript) and p.value is u and isinstance(p.slice, ast.Constant)
+                               and isinstance(p.slice.value, (str, int)) and not isinstance(p.slice.value, bool) for p, u in zip(subs, uses)):
+            continue
+        new = {k: f'{d}__{k}' for k in {p.slice.value for p in subs} | {k for k, _ in items}}
+        if any(n in names or not n.isidentifier() for n in new.values()):
+            continue
+        for p in subs:
+            holder = parent[id(p)]
+            repl = ast.copy_location(ast.Name(new[p.slice.value], p.ctx), p)
+            for f_, val in ast.iter_fields(holder):
+                if val is p:
+                    setattr(holder, f_, repl)
+                elif isinstance(val, list) and any(y is p for y in val):
+                    val[:] = [repl if y is p else y for y in val]
+        body_holder = parent[id(st)]
+        repl_st = [ast.copy_location(ast.Assign([ast.Name(new[k], ast.Store())], v, lineno=st.lineno), st) for k, v in items] \
+            or [ast.copy_location(ast.Pass(), st)]
+        for f_, val in ast.iter_fields(body_holder):
+            if isinstance(val, list) and any(y is st for y in val):
+                i = next(j for j, y in enumerate(val) if y is st)
+                val[i:i + 1] = repl_st
+        done = True
+    if done:
+        ast.fix_missing_locations(fn)
+        for x in ast.walk(fn):
+            for ch in ast.iter_child_nodes(x):
+                ch._parent = x
+    return fn
 
 
 def _radians_of(e):
@@ -318,79 +484,132 @@ def _run_ground_speed(ctx, m, gs, fn, callee_of):
     if args is None:
         ctx.undecided('C16-R2', gs, norm(ret.value), 'result is not hypot(a, b) / sqrt(a² + b²)')
 
-    # R2 / R1: each component is (air-speed term) + (wind term); which wind variable, which trigonometric function
-    comps = []
-    for i, a in enumerate(args):
-        e, at_e = _step(F, a, at_h)
-        is_sum = isinstance(e, ast.BinOp) and isinstance(e.op, ast.Add)
-        ctx.ob('C16-R2', gs, f'hypot argument {i}: {norm(a)}', is_sum,
-               'sum of an air-speed component and a wind component' if is_sum else
-               'a hypot argument is not the sum of air-speed and wind components (wind is not added)',
-               line=a.lineno)
-        if not is_sum:
-            continue
-        sides = [(sd, F.resolve(sd, at_e)) for sd in (e.left, e.right)]
+    # R2 / R1: each component is (air-speed term) + (wind term); which wind variable, which trigonometric function.
+    # A value that is bound once per branch of the heading selection (`air = ...` under `if azimuth is None` and under
+    # `else`) is not one expression for all calls; it is one expression for each way the selection can go, so the
+    # component is then read once per case of the azimuth (absent, 0, ordinary) on the graph pruned for that case.
+    if 'azimuth' not in F.params:
+        ctx.undecided('C16-R5', gs, 'azimuth', 'get_ground_speed no longer takes the optional azimuth')
+    AZ = (None, 0.0, 90.0)
+    cases = {}
+
+    def case(val):
+        if val not in cases:
+            try:
+                cases[val] = ValueCase(fn, 'azimuth', val, m.tree, callee_of)
+            except Undecidable as ex:
+                ctx.undecided('C16-R5', gs, f'heading when azimuth = {val}', str(ex))
+        return cases[val]
+
+    def classify(Fc, e, at):
+        sides = [(sd, _fold(Fc.resolve(sd, at, quiet=True))) for sd in (e.left, e.right)]
         wind = [(sd, r) for sd, r in sides if _wind_vars(r) and not _trig_calls(r)]
         air = [(sd, r) for sd, r in sides if _trig_calls(r) and not _wind_vars(r)]
-        if len(wind) != 1 or len(air) != 1:
-            ctx.undecided('C16-R1', gs, norm(e), 'cannot tell the wind term from the air-speed term')
-        wvs = _wind_vars(wind[0][1])
-        if len(wvs) != 1:
-            ctx.undecided('C16-R1', gs, norm(wind[0][0]), f'wind term reads dataset variables {sorted(wvs)}')
-        wv = wvs.pop()
-        kinds = {_last(c) for c in _trig_calls(air[0][1])}
-        if len(kinds) != 1:
-            ctx.undecided('C16-R1', gs, norm(air[0][0]), f'air-speed term derives from {sorted(kinds)}')
-        k = kinds.pop()
-        comps.append((wv, k, air[0], wind[0], at_e))
-        ok = EXPECT[wv] == k
-        axis = 'east' if wv == 'u' else 'north'
-        ctx.ob('C16-R1', gs, f"{axis} component pairs wind '{wv}' with {k}(heading)", ok,
-               f"heading clockwise from north: {axis} = TAS·{EXPECT[wv]}(heading)" if ok else
-               (f"heading is measured clockwise from north, so the {axis}ward air-speed component is "
-                f"TAS·{EXPECT[wv]}(heading); the code adds TAS·{k}(heading) to the {axis}ward wind "
-                f"'{wv}': a pure tailwind on heading 090 does not add its full speed"),
-               line=a.lineno)
-        # air term = TAS * trig(heading), as an exact product
-        shown, _ = _step(F, air[0][0], at_e)
-        tc = _trig_calls(air[0][1])[0]
-        ttxt = norm(tc)
+        return (air[0], wind[0]) if len(wind) == 1 and len(air) == 1 else None
 
-        class K(ast.NodeTransformer):
-            def visit_Call(self, n):
-                return ast.Name('TRIG', ast.Load()) if norm(n) == ttxt else self.generic_visit(n)
-        try:
-            okm = poly_equal(normal_form(K().visit(_cp(air[0][1]))), ref_normal_form('true_airspeed * TRIG', {}))
-        except AlgebraError:
-            okm = False
-        okm = okm and 'true_airspeed' in F.params
-        ctx.ob('C16-R2', gs, f'air-speed term {norm(shown)}', okm,
-               'true airspeed times the trigonometric factor' if okm else
-               'air-speed component is not TAS × sin/cos(heading)', line=shown.lineno, nontrivial=False)
+    def is_sum(e):
+        return isinstance(e, ast.BinOp) and isinstance(e.op, ast.Add)
+
+    def views_of(a):
+        """[(case value | 'all', sum expression, its statement, (air, wind))]; [] when the argument is not a sum"""
+        e, at = _step(F, a, at_h)
+        if is_sum(e):
+            c = classify(F, e, at)
+            if c is not None:
+                return [('all', e, F.g.nodes[at].stmt, c)]
+        elif not isinstance(e, ast.Name):
+            return []
+        out = []
+        st_h = F.g.nodes[at_h].stmt
+        for val in AZ:
+            Fv = case(val)
+            at_hv = Fv.node_of(st_h)
+            if at_hv is None:
+                ctx.undecided('C16-R5', gs, norm(st_h)[:60], f'not reached when azimuth = {val}')
+            ev, atv = _step(Fv, a, at_hv)
+            if not is_sum(ev):
+                return []
+            c = classify(Fv, ev, atv)
+            if c is None:
+                ctx.undecided('C16-R1', gs, norm(ev), 'cannot tell the wind term from the air-speed term')
+            out.append((val, ev, Fv.g.nodes[atv].stmt, c))
+        return out
+
+    comps = []
+    for i, a in enumerate(args):
+        views = views_of(a)
+        ctx.ob('C16-R2', gs, f'hypot argument {i}: {norm(a)}', bool(views),
+               'sum of an air-speed component and a wind component' if views else
+               'a hypot argument is not the sum of air-speed and wind components (wind is not added)',
+               line=a.lineno)
+        if not views:
+            continue
+        seen = []
+        for val, e, st_e, (air, wind) in views:
+            wvs = _wind_vars(wind[1])
+            if len(wvs) != 1:
+                ctx.undecided('C16-R1', gs, norm(wind[0]), f'wind term reads dataset variables {sorted(wvs)}')
+            wv = wvs.pop()
+            kinds = {_last(c) for c in _trig_calls(air[1])}
+            if len(kinds) != 1:
+                ctx.undecided('C16-R1', gs, norm(air[0]), f'air-speed term derives from {sorted(kinds)}')
+            k = kinds.pop()
+            # air term = TAS * trig(heading), as an exact product
+            ttxt = norm(_trig_calls(air[1])[0])
+
+            class K(ast.NodeTransformer):
+                def visit_Call(self, n):
+                    return ast.Name('TRIG', ast.Load()) if norm(n) == ttxt else self.generic_visit(n)
+            try:
+                okm = poly_equal(normal_form(K().visit(_cp(air[1]))), ref_normal_form('true_airspeed * TRIG', {}))
+            except AlgebraError:
+                okm = False
+            okm = okm and 'true_airspeed' in F.params
+            if (wv, k, okm) in seen:
+                continue
+            seen.append((wv, k, okm))
+            when = '' if val == 'all' or len(views) == 1 else (' when no azimuth is given' if val is None else f' when azimuth = {val}')
+            if len(seen) == 1:
+                at_e = F.node_of(st_e)
+                comps.append({'wv': wv, 'k': k, 'air': air, 'wind': wind, 'at_e': at_e,
+                              'views': {v[0]: (v[3][0][0], v[2]) for v in views}})
+            ok = EXPECT[wv] == k
+            axis = 'east' if wv == 'u' else 'north'
+            ctx.ob('C16-R1', gs, f"{axis} component pairs wind '{wv}' with {k}(heading){when if len(seen) > 1 else ''}", ok,
+                   f"heading clockwise from north: {axis} = TAS·{EXPECT[wv]}(heading)" if ok else
+                   (f"heading is measured clockwise from north, so the {axis}ward air-speed component is "
+                    f"TAS·{EXPECT[wv]}(heading); the code adds TAS·{k}(heading) to the {axis}ward wind "
+                    f"'{wv}': a pure tailwind on heading 090 does not add its full speed"),
+                   line=a.lineno)
+            shown = air[0] if val != 'all' else _step(F, air[0], F.node_of(st_e))[0]
+            ctx.ob('C16-R2', gs, f'air-speed term {norm(shown)}', okm,
+                   'true airspeed times the trigonometric factor' if okm else
+                   'air-speed component is not TAS × sin/cos(heading)', line=shown.lineno, nontrivial=False)
     ctx.floor('C16-R1', len(comps), 2, 'wind/air component pairs')
-    if {c[0] for c in comps} != {'u', 'v'}:
-        ctx.ob('C16-R2', gs, f'components use winds {sorted(c[0] for c in comps)}', False,
+    if {c['wv'] for c in comps} != {'u', 'v'}:
+        ctx.ob('C16-R2', gs, f'components use winds {sorted(c["wv"] for c in comps)}', False,
                "both 'u' and 'v' must enter the vector sum", line=hyp.lineno)
 
     # R5 heading: for an absent azimuth, an explicit azimuth of 0 (falsy) and an ordinary explicit azimuth, run the
     # selection of the heading as that value runs it (if/else, conditional expression, `or`, rebinding of the parameter,
     # match) and look at what reaches the trigonometric function
-    if 'azimuth' not in F.params:
-        ctx.undecided('C16-R5', gs, 'azimuth', 'get_ground_speed no longer takes the optional azimuth')
-    for wv, k, (air_sd, air_r), wind_, at_e in comps:
-        st_e = F.g.nodes[at_e].stmt
-        shown, _ = _step(F, air_sd, at_e)
-        tshown = (_trig_calls(shown) or _trig_calls(air_r))[0]
+    for comp in comps:
+        k, (air_sd0, air_r) = comp['k'], comp['air']
+        tshown = None
         srcs = []
-        for val in (None, 0.0, 90.0):
+        for val in AZ:
+            air_sd, st_e = comp['views'].get(val) or comp['views']['all']
             try:
-                Fv = ValueCase(fn, 'azimuth', val, m.tree, callee_of)
+                Fv = case(val)
                 at_v = Fv.node_of(st_e)
                 if at_v is None:
                     ctx.undecided('C16-R5', gs, norm(st_e)[:60], f'not reached when azimuth = {val}')
-                rv = Fv.resolve(air_sd, at_v)
+                rv = _fold(Fv.resolve(air_sd, at_v))
             except Undecidable as ex:
                 ctx.undecided('C16-R5', gs, f'heading when azimuth = {val}', str(ex))
+            if tshown is None:
+                shown, _ = _step(Fv, air_sd, at_v)
+                tshown = (_trig_calls(shown) or _trig_calls(air_r))[0]
             tcs = _trig_calls(rv)
             x = _radians_of(tcs[0].args[0]) if tcs and len(tcs[0].args) == 1 else None
             srcs.append((val, x))
@@ -419,7 +638,7 @@ def _run_ground_speed(ctx, m, gs, fn, callee_of):
         if callee is None:
             return None
         if id(callee) not in cache:
-            cfn = unroll_literal_loops(callee)
+            cfn = scalarize_local_dicts(unroll_literal_loops(callee))
             nr_ = NanRefusal(ValueCase(cfn, None, None, m.tree, callee_of), helper, depth)
             cache[id(callee)] = (cfn,) + nr_.summary()
         cfn, rfree, pfree = cache[id(callee)]
@@ -428,7 +647,8 @@ def _run_ground_speed(ctx, m, gs, fn, callee_of):
     nr = NanRefusal(F, helper)
     state = nr.ins.get(at_ret, frozenset())
     missing = []
-    for wv, k, air_, (wind_sd, wind_r), at_e in comps:
+    for comp in comps:
+        wv, (wind_sd, wind_r), at_e = comp['wv'], comp['wind'], comp['at_e']
         o = F.origin(wind_sd, at_e)
         if o is None:
             ctx.undecided('C16-R3', gs, norm(wind_sd)[:60], 'the wind term is not a named value a NaN test could refer to')
@@ -444,14 +664,18 @@ def _run_ground_speed(ctx, m, gs, fn, callee_of):
 
     # R4 pressure level and coordinate roles
     interps = []
-    for wv, k, air_, (wind_sd, wind_r), at_e in comps:
+    for comp in comps:
+        wind_r = comp['wind'][1]
         interps += [c for c in ast.walk(wind_r) if isinstance(c, ast.Call) and isinstance(c.func, ast.Attribute)
                     and c.func.attr == 'interp']
     ctx.floor('C16-R4', len(interps), 2, 'wind interpolation calls')
     want_pl = ref_normal_form('pressure_at_altitude_isa_bada4(altitude) / 100', {})
     vis = visible_constants(ctx.prog, m)
     for c in interps:
-        pl = kwarg(c, 'pressure_level')
+        kws = _call_kwargs(c)
+        if kws is None:
+            ctx.undecided('C16-R4', gs, norm(c)[:80], 'the coordinates of the interpolation are passed as `**` of something that is not a dict display')
+        pl = kws.get('pressure_level')
         try:
             ok = pl is not None and 'altitude' in F.params and poly_equal(normal_form(pl, {}, vis), want_pl)
         except AlgebraError:
@@ -460,7 +684,7 @@ def _run_ground_speed(ctx, m, gs, fn, callee_of):
                'ISA pressure in Pa converted to hPa' if ok else
                'pressure level is not ISA pressure(altitude) / 100 (files are in hPa)', line=c.lineno)
         for kw in ('latitude', 'longitude'):
-            v = kwarg(c, kw)
+            v = kws.get(kw)
             r = expr_role(None, v) if v is not None else None
             want = 'lat' if kw == 'latitude' else 'lon'
             ok = r == want and 'gt_point' in F.params and any(isinstance(x, ast.Name) and x.id == 'gt_point' for x in ast.walk(v))
@@ -474,11 +698,1325 @@ def _run_ground_speed(ctx, m, gs, fn, callee_of):
            nontrivial=False)
 
 
+
+# ------------------------------------------------------------------------- R6: which dataset a query interpolates in
+#
+# The wind of a query is read from a dataset that get_ground_speed obtains from state kept between calls: the open
+# daily file and, when the file has a time axis, its slice for the hour.  Whether the right dataset is used is a
+# property of *sequences* of queries on one object, so the rule decides it on sequences: the program's own statements
+# (constructor, get_ground_speed and whatever they call, in whatever classes and modules the state lives) are executed
+# on a model of their environment -
+#   * a time is a real calendar time (hour / normalize / floor / round / strftime ... behave as they do),
+#   * `xr.open_dataset(path)` is a handle of the file of that path, which has a time axis or not (both are tried),
+#   * `.isel(valid_time=i)` of a handle is "slice i of that file", `ds[var].interp(...)` is logged with the dataset,
+#   * numbers (coordinates, speeds, the interpolated wind) are opaque and finite, the point is inside the domain -
+# in every state the object reaches within three queries (explored breadth-first, equal states once), for every one of
+# the query times, which are chosen to separate the things a cache key can confuse (same day and hour with another
+# minute, same day another hour, another day same hour, the same day of another month, the same date of another year).
+# For every query both wind components must be interpolated in: the file named YYYYMMDD.nc of the
+# query's day under the data directory, sliced at the query's hour if (and only if) that file has a time axis.
+# Nothing is assumed about how the state is organised; a construct the model cannot execute is undecided, never guessed.
+
+import datetime as _dt
+from pathlib import PurePosixPath
+
+TIME_DIM = 'valid_time'
+ENVIRONMENT = ('AEIC.config',)
+SPACE_DIMS = ('pressure_level', 'latitude', 'longitude')
+
+
+class _Raised(Exception):
+    def __init__(self, what, fi=None, line=0):
+        super().__init__(what)
+        self.what, self.fi, self.line = what, fi, line
+
+
+class _Return(Exception):
+    def __init__(self, value):
+        self.value = value
+
+
+class _Loop(Exception):
+    def __init__(self, kind):
+        self.kind = kind
+
+
+class _Opq:
+    """an opaque finite number / array / record of the environment"""
+
+    def __repr__(self):
+        return '<opaque>'
+
+
+OPQV = _Opq()
+
+
+class MTime(_dt.datetime):
+    """pd.Timestamp as far as the program may use it"""
+    _UNITS = {'h': 3600, 'H': 3600, 'hour': 3600, 'D': 86400, 'd': 86400, 'min': 60, 'T': 60, 's': 1, 'S': 1}
+
+    @classmethod
+    def of(cls, d):
+        return cls(d.year, d.month, d.day, d.hour, d.minute, d.second)
+
+    def _snap(self, freq, how):
+        if freq not in self._UNITS:
+            raise Undecidable(f'time rounded to `{freq}`')
+        u = self._UNITS[freq]
+        day = _dt.datetime(self.year, self.month, self.day)
+        sec = (self - day).total_seconds()
+        q, r = divmod(sec, u)
+        if how == 'ceil' and r:
+            q += 1
+        if how == 'round' and (2 * r > u or (2 * r == u and q % 2)):
+            q += 1
+        return MTime.of(day + _dt.timedelta(seconds=q * u))
+
+    def normalize(self):
+        return self._snap('D', 'floor')
+
+    def floor(self, freq):
+        return self._snap(freq, 'floor')
+
+    def ceil(self, freq):
+        return self._snap(freq, 'ceil')
+
+    def round(self, freq):
+        return self._snap(freq, 'round')
+
+    def to_pydatetime(self):
+        return self
+
+    @property
+    def dayofyear(self):
+        return self.timetuple().tm_yday
+
+    day_of_year = dayofyear
+
+    def show(self):
+        return self.strftime('%Y-%m-%d %H:%M')
+
+
+TIME_ATTRS = ('year', 'month', 'day', 'hour', 'minute', 'second', 'dayofyear', 'day_of_year')
+TIME_METHODS = ('normalize', 'floor', 'ceil', 'round', 'date', 'strftime', 'isoformat', 'to_pydatetime', 'replace',
+                'weekday', 'toordinal', 'timetuple')
+PURE_METHODS = {
+    str: ('format', 'startswith', 'endswith', 'lower', 'upper', 'strip', 'split', 'replace', 'join', 'zfill', 'removesuffix',
+          'removeprefix', 'rstrip', 'lstrip'),
+    tuple: ('index', 'count'), list: ('index', 'count', 'append', 'extend', 'pop', 'clear', 'copy', 'insert', 'remove'),
+    dict: ('get', 'keys', 'values', 'items', 'pop', 'clear', 'setdefault', 'update', 'copy', 'popitem'),
+    set: ('add', 'discard', 'remove', 'clear', 'copy'), frozenset: ('copy',),
+    _dt.date: ('strftime', 'isoformat', 'replace', 'toordinal', 'weekday', 'timetuple'),
+    PurePosixPath: ('joinpath', 'with_suffix', 'with_name', 'as_posix', 'with_stem'),
+}
+PATH_ATTRS = ('name', 'stem', 'suffix', 'parent', 'parts')
+PATH_TRUE = ('is_dir', 'exists', 'is_file')
+PATH_SELF = ('resolve', 'expanduser', 'absolute')
+
+
+class MFile:
+    """an open NetCDF file"""
+
+    def __init__(self, path, has_time, born, site):
+        self.path, self.has_time, self.born, self.site = path, has_time, born, site
+        self.closed = False
+        self.kept = None        # (class, attribute, function, line) of the last store into the state of the program
+
+
+class MSlice:
+    """file.isel(valid_time=idx)"""
+
+    def __init__(self, file, idx, born, site):
+        self.file, self.idx, self.born, self.site = file, idx, born, site
+        self.kept = None
+
+
+class MField:
+    def __init__(self, ds, var):
+        self.ds, self.var = ds, var
+
+
+class MObj:
+    def __init__(self, ci):
+        self.ci, self.attrs = ci, {}
+
+
+class MExt:
+    """a name of the environment: a module, a library function, a builtin"""
+
+    def __init__(self, dotted):
+        self.dotted = dotted
+
+    @property
+    def last(self):
+        return self.dotted.split('.')[-1]
+
+
+class MFn:
+    def __init__(self, fi, recv=None):
+        self.fi, self.recv = fi, recv
+
+
+class MClass:
+    def __init__(self, ci):
+        self.ci = ci
+
+
+def _describe(ds):
+    if isinstance(ds, MSlice):
+        return ('slice', ds.file.path, ds.idx)
+    if isinstance(ds, MFile):
+        return ('file', ds.path, None)
+    return ('other', repr(ds), None)
+
+
+def _say(d):
+    kind, path, idx = d
+    name = path.rsplit('/', 1)[-1]
+    return f'the slice valid_time={idx} of {name}' if kind == 'slice' else f'the whole of {name}' if kind == 'file' else 'a value that is not a dataset'
+
+
+FNFACTS: dict = {}
+
+
+class _ConstRef:
+    def __init__(self, module, name):
+        self.module, self.name = module, name
+
+
+class QueryModel:
+    BUDGET = 400000
+    BUILTINS = {'str': str, 'int': int, 'bool': bool, 'len': len, 'repr': repr, 'tuple': tuple, 'list': list, 'dict': dict,
+                'set': set, 'frozenset': frozenset, 'min': min, 'max': max, 'abs': abs, 'sorted': sorted, 'any': any, 'all': all,
+                'range': range, 'enumerate': enumerate, 'zip': zip, 'reversed': reversed, 'sum': sum}
+
+    def __init__(self, prog, has_time):
+        self.prog, self.has_time = prog, has_time       # has_time: file name -> the file has a time axis
+        self.steps = 0
+        self.query = -1
+        self.log = []           # (query, variable, dataset, function, line)
+        self.opened = []        # (query, path)
+        self._consts = {}
+        self._memo = {}
+        self._fnfacts = FNFACTS
+        self._names = prog.__dict__.setdefault('_c16_names', {})
+
+    # -- names ---------------------------------------------------------------------------------------------------
+    def lookup(self, name, fi, env):
+        if name in env:
+            return env[name]
+        m = fi.module
+        key = (m.relpath, name)
+        if key not in self._names:
+            self._names[key] = self._module_name(name, m)
+        v = self._names[key]
+        if type(v) is _ConstRef:
+            return self.constant(v.module, v.name)       # a module-level value is state: one object per model
+        return v
+
+    def _module_name(self, name, m):
+        if name in m.functions and '.' not in name:
+            return MFn(m.functions[name])
+        if name in m.classes:
+            return MClass(m.classes[name])
+        if name in m.imports:
+            # the configuration singleton is environment (it locates files that exist), not state of the weather object
+            r = None if m.imports[name].startswith(ENVIRONMENT) else self.prog.resolve_dotted(m.imports[name])
+            if r is None:
+                return MExt(m.imports[name])
+            if hasattr(r, 'methods'):
+                return MClass(r)
+            if hasattr(r, 'qualname'):
+                return MFn(r)
+            if isinstance(r, tuple) and r[0] == 'const':
+                return _ConstRef(r[1], r[2])
+            return MExt(m.imports[name])      # a module of the program: only its library-like use is modelled
+        if name in m.constants:
+            return _ConstRef(m, name)
+        if name in ('True', 'False', 'None'):
+            return {'True': True, 'False': False, 'None': None}[name]
+        return MExt('builtins.' + name)
+
+    def constant(self, m, name):
+        key = (m.relpath, name)
+        if key not in self._consts:
+            fake = type('Ctx', (), {'module': m, 'qualname': '<module>', 'cls': None, 'file': m.relpath})()
+            self._consts[key] = self.ev(m.constants[name], fake, {})
+        return self._consts[key]
+
+    # -- calls ---------------------------------------------------------------------------------------------------
+    def call_fi(self, fi, args, kwargs, recv=None):
+        node = fi.node
+        self.prog.consulted.add(fi.file)
+        facts = self._fnfacts.get(id(node))
+        if facts is None:
+            decs = [norm(d.func if isinstance(d, ast.Call) else d).split('.')[-1] for d in node.decorator_list]
+            why = None
+            if isinstance(node, ast.AsyncFunctionDef) or [d for d in decs if d not in ('staticmethod', 'classmethod', 'property', 'cached_property', 'cache', 'lru_cache', 'override')]:
+                why = f'{fi.qualname} is decorated with {decs}'
+            elif any(isinstance(x, (ast.Yield, ast.YieldFrom)) for x in walk_no_nested(node)):
+                why = f'{fi.qualname} is a generator'
+            facts = self._fnfacts[id(node)] = (decs, [d for d in decs if d in ('cache', 'lru_cache')], why)
+        decs, memo, why = facts
+        if why:
+            raise Undecidable(why)
+        args = list(args)
+        if fi.cls is not None and 'staticmethod' not in decs:
+            if 'classmethod' in decs:
+                args.insert(0, MClass(recv.ci if isinstance(recv, MObj) else recv.ci if isinstance(recv, MClass) else fi.cls))
+            elif recv is not None:
+                args.insert(0, recv)
+        a = node.args
+        if a.vararg or a.kwarg:
+            raise Undecidable(f'{fi.qualname} takes *args / **kwargs')
+        names = [x.arg for x in a.posonlyargs + a.args]
+        if len(args) > len(names):
+            raise _Raised(f'TypeError: {fi.qualname} takes {len(names)} positional arguments', fi, node.lineno)
+        env = dict(zip(names, args))
+        for k, v in kwargs.items():
+            if k in env or k not in names + [x.arg for x in a.kwonlyargs]:
+                raise _Raised(f'TypeError: {fi.qualname} got an unexpected argument {k}', fi, node.lineno)
+            env[k] = v
+        pos = a.posonlyargs + a.args
+        for arg, d in list(zip(pos[len(pos) - len(a.defaults):], a.defaults)) + \
+                [(x, d) for x, d in zip(a.kwonlyargs, a.kw_defaults) if d is not None]:
+            if arg.arg not in env:
+                env[arg.arg] = self.ev(d, fi, {})
+        for x in pos + a.kwonlyargs:
+            if x.arg not in env:
+                raise _Raised(f'TypeError: {fi.qualname} misses argument {x.arg}', fi, node.lineno)
+        if memo:
+            try:
+                key = (fi.file, fi.qualname, tuple((k, env[k]) for k in sorted(env)))
+                hash(key)
+            except TypeError:
+                raise Undecidable(f'memoised {fi.qualname} called with unhashable arguments')
+            if key in self._memo:
+                return self._memo[key]
+        try:
+            self.block(node.body, fi, env)
+            r = None
+        except _Return as ret:
+            r = ret.value
+        if memo:
+            self._memo[key] = r
+        return r
+
+    def construct(self, ci, args, kwargs):
+        o = MObj(ci)
+        init = ci.find_method('__init__')
+        if init is not None:
+            self.call_fi(init, args, kwargs, recv=o)
+        elif ci.all_fields() and not any(c.find_method(n) for c in [ci] for n in ('__new__', '__post_init__')):
+            # a record (dataclass / NamedTuple): the fields in order, defaults from the class body
+            flds = list(ci.all_fields())
+            if len(args) > len(flds) or any(k not in flds for k in kwargs):
+                raise _Raised(f'TypeError: {ci.name}() got unexpected arguments')
+            o.attrs.update(zip(flds, args))
+            for k, v in kwargs.items():
+                if k in o.attrs:
+                    raise _Raised(f'TypeError: {ci.name}() got multiple values for {k}')
+                o.attrs[k] = v
+            for f_ in flds:
+                if f_ not in o.attrs:
+                    o.attrs[f_] = self.class_attr(ci, f_, o)     # raises if the field has no default
+        elif args or kwargs:
+            raise Undecidable(f'{ci.name}(...) without __init__ in the program')
+        return o
+
+    def class_attr(self, ci, attr, recv):
+        """value of a class-level name / method / property looked up on class `ci`"""
+        for c in ci.mro():
+            if attr in c.methods:
+                f = c.methods[attr]
+                decs = [norm(d).split('.')[-1] for d in f.node.decorator_list]
+                if 'property' in decs or 'cached_property' in decs:
+                    if not isinstance(recv, MObj):
+                        raise Undecidable(f'property {attr} read on the class')
+                    return self.call_fi(f, [], {}, recv=recv) if 'cached_property' not in decs else self._cached_prop(f, recv, attr)
+                return MFn(f, recv)
+            ca = c.class_assignments()
+            if attr in ca and ca[attr] is not None:
+                key = (c.file, c.name, attr)
+                if key not in self._consts:
+                    fake = type('Ctx', (), {'module': c.module, 'qualname': c.name, 'cls': c, 'file': c.file})()
+                    self._consts[key] = self.ev(ca[attr], fake, {})
+                return self._consts[key]
+        if any(b for c in ci.mro() for b in c.base_exprs if b not in [x.name for x in c.bases] and b not in ('object',)):
+            raise Undecidable(f'attribute {attr} of {ci.name}, which has bases outside the program')
+        raise _Raised(f"AttributeError: '{ci.name}' object has no attribute '{attr}'")
+
+    def _cached_prop(self, f, recv, attr):
+        v = self.call_fi(f, [], {}, recv=recv)
+        recv.attrs[attr] = v
+        return v
+
+    def ext_call(self, f, args, kwargs, e, fi):
+        last = f.last
+        vals = list(args) + list(kwargs.values())
+        if last in ('open_dataset', 'load_dataset'):
+            if not args and 'filename_or_obj' not in kwargs:
+                raise Undecidable(f'`{norm(e)[:60]}` without a path')
+            p = args[0] if args else kwargs['filename_or_obj']
+            if not isinstance(p, (str, PurePosixPath)):
+                raise Undecidable(f'`{norm(e)[:60]}`: the path of the weather file is not computed from the time and the data directory in a way the model follows')
+            path = str(p)
+            self.opened.append((self.query, path))
+            return MFile(path, bool(self.has_time.get(path.rsplit('/', 1)[-1], False)), self.query, (fi, e.lineno))
+        if last in ('Path', 'PurePath', 'PosixPath', 'PurePosixPath') and args and all(isinstance(x, (str, PurePosixPath)) for x in args) and not kwargs:
+            return PurePosixPath(*args)
+        if last == 'file_location' and len(args) == 1 and isinstance(args[0], (str, PurePosixPath)):
+            return args[0]          # AEIC.config resolves a data path; the model's data directory is absolute
+        if last in ('fspath', 'abspath', 'normpath', 'realpath') and len(args) == 1 and isinstance(args[0], (str, PurePosixPath)):
+            return str(args[0])
+        if f.dotted in ('os.path.join', 'posixpath.join') and args and all(isinstance(x, (str, PurePosixPath)) for x in args):
+            return str(PurePosixPath(*args))
+        if last in ('exists', 'isdir', 'isfile') and len(args) == 1 and isinstance(args[0], (str, PurePosixPath)):
+            return True
+        if last in NAN_TESTS:
+            return False
+        if last in FINITE_TESTS:
+            return True
+        if last == 'isinstance' and len(args) == 2:
+            return self.isinstance_(args[0], args[1])
+        if last in ('Timestamp', 'to_datetime') and len(args) == 1 and isinstance(args[0], MTime) and not kwargs:
+            return args[0]
+        if last == 'str' and len(args) == 1 and isinstance(args[0], (PurePosixPath, MTime, _dt.date)):
+            return str(args[0])
+        if last == 'getattr' and len(args) in (2, 3) and isinstance(args[1], str):
+            try:
+                return self.getattr_(args[0], args[1], e, fi)
+            except _Raised:
+                if len(args) == 3:
+                    return args[2]
+                raise
+        if last == 'hasattr' and len(args) == 2 and isinstance(args[1], str):
+            try:
+                self.getattr_(args[0], args[1], e, fi)
+                return True
+            except _Raised:
+                return False
+        if f.dotted.startswith('builtins.') and last in self.BUILTINS:
+            containers = last in ('dict', 'tuple', 'list', 'set', 'frozenset', 'len', 'enumerate', 'zip', 'reversed')
+            if containers and any(isinstance(x, (_Opq, MObj, MFile, MSlice, MField)) for x in args):
+                raise Undecidable(f'`{norm(e)[:60]}`')
+            if not containers and any(isinstance(x, (_Opq, MObj, MFile, MSlice, MField, MExt, MFn, MClass)) for x in vals):
+                if last in ('bool',) and isinstance(vals[0], (MObj, MFile, MSlice)):
+                    return True
+                if any(isinstance(x, (MObj, MFile, MSlice)) for x in vals):
+                    raise Undecidable(f'`{norm(e)[:60]}` applied to program state')
+                return OPQV
+            try:
+                r = self.BUILTINS[last](*args, **kwargs)
+            except Exception as ex:
+                raise _Raised(f'{type(ex).__name__}: {ex}', fi, e.lineno)
+            return list(r) if isinstance(r, (range, enumerate, zip, reversed)) else r
+        if any(isinstance(x, MObj) for x in vals):
+            raise Undecidable(f'`{norm(e)[:60]}` hands an object of the program to code outside it')
+        if any(isinstance(x, (MFile, MSlice)) for x in vals):
+            raise Undecidable(f'`{norm(e)[:60]}` hands the dataset to a function the model does not know')
+        if last in ('print', 'collect', 'debug', 'info', 'warning', 'warn'):
+            return None
+        return OPQV
+
+    def isinstance_(self, v, t):
+        ts = t if isinstance(t, tuple) else (t,)
+        res = False
+        for x in ts:
+            if isinstance(x, MClass):
+                if isinstance(v, MObj) and any(c is x.ci for c in v.ci.mro()):
+                    return True
+                continue
+            if not isinstance(x, MExt):
+                return OPQV
+            nm = x.last
+            table = {'Path': PurePosixPath, 'PurePath': PurePosixPath, 'PosixPath': PurePosixPath, 'str': str, 'int': int,
+                     'bool': bool, 'float': float, 'tuple': tuple, 'list': list, 'dict': dict, 'Timestamp': MTime, 'datetime': MTime,
+                     'date': _dt.date, 'Dataset': (MFile, MSlice)}
+            if nm not in table or isinstance(v, _Opq):
+                res = OPQV
+                continue
+            if isinstance(v, table[nm]):
+                return True
+        return res
+
+    def getattr_(self, v, attr, e, fi):
+        line = getattr(e, 'lineno', 0)
+        if isinstance(v, MObj):
+            if attr in v.attrs:
+                return v.attrs[attr]
+            return self.class_attr(v.ci, attr, v)
+        if isinstance(v, MClass):
+            return self.class_attr(v.ci, attr, v)
+        if isinstance(v, _Opq):
+            return OPQV
+        if isinstance(v, MExt):
+            return MExt(v.dotted + '.' + attr)
+        if v is None:
+            raise _Raised(f"AttributeError: 'NoneType' object has no attribute '{attr}'", fi, line)
+        if isinstance(v, MTime) and attr in TIME_ATTRS:
+            return getattr(v, attr)
+        if isinstance(v, _dt.date) and not isinstance(v, MTime) and attr in ('year', 'month', 'day'):
+            return getattr(v, attr)
+        if isinstance(v, PurePosixPath) and attr in PATH_ATTRS:
+            return getattr(v, attr)
+        if isinstance(v, bool) and attr in ('values', 'data'):
+            return v
+        if isinstance(v, (MFile, MSlice)):
+            has = v.has_time if isinstance(v, MFile) else False
+            dims = {d: (24 if d == TIME_DIM else 7) for d in ((TIME_DIM,) if has else ()) + SPACE_DIMS}
+            if attr in ('dims', 'sizes'):
+                return dims
+            if attr in ('coords', 'indexes', 'xindexes'):
+                if isinstance(v, MSlice) and attr == 'coords':
+                    dims[TIME_DIM] = 1
+                return {d: OPQV for d in dims}
+            if attr in ('data_vars', 'variables'):
+                return ('t', 'u', 'v')
+            if attr in ('u', 'v', 't', TIME_DIM) + SPACE_DIMS:
+                return MField(v, attr)
+            raise Undecidable(f'`{norm(e)[:60]}`: attribute {attr} of a dataset')
+        if isinstance(v, MField):
+            return OPQV
+        raise Undecidable(f'`{norm(e)[:60]}`: attribute {attr} of {type(v).__name__}')
+
+    def method(self, recv, attr, args, kwargs, e, fi):
+        if isinstance(recv, (MObj, MClass)):
+            f = self.getattr_(recv, attr, e, fi)
+            return self.apply(f, args, kwargs, e, fi)
+        if isinstance(recv, MExt):
+            return self.ext_call(MExt(recv.dotted + '.' + attr), args, kwargs, e, fi)
+        if attr in NAN_TESTS and not args:
+            return False
+        if attr in FINITE_TESTS and not args:
+            return True
+        if isinstance(recv, bool) and attr in ('any', 'all', 'item') and not args:
+            return recv
+        if isinstance(recv, (MFile, MSlice)):
+            return self.dataset_method(recv, attr, args, kwargs, e, fi)
+        if isinstance(recv, MField):
+            if attr == 'interp':
+                self.log.append((self.query, recv.var, recv.ds, fi, e.lineno))
+                return OPQV
+            if attr in ('isel', 'sel', 'reindex', 'shift', 'roll') and (TIME_DIM in kwargs or any(isinstance(a, dict) and TIME_DIM in a for a in args)):
+                raise Undecidable(f'`{norm(e)[:60]}`: the time step is chosen on the variable, not on the dataset')
+            if attr in ('load', 'compute', 'copy', 'persist', 'astype', 'squeeze', 'fillna', 'sortby', 'transpose'):
+                return recv
+            return OPQV
+        if isinstance(recv, _Opq):
+            if any(isinstance(x, (MObj, MFile, MSlice)) for x in list(args) + list(kwargs.values())):
+                raise Undecidable(f'`{norm(e)[:60]}` hands program state to an opaque value')
+            return OPQV
+        if recv is None:
+            raise _Raised(f"AttributeError: 'NoneType' object has no attribute '{attr}'", fi, e.lineno)
+        if isinstance(recv, MTime):
+            if attr in TIME_METHODS:
+                try:
+                    r = getattr(recv, attr)(*args, **kwargs)
+                except Undecidable:
+                    raise
+                except Exception as ex:
+                    raise Undecidable(f'`{norm(e)[:60]}`: {ex}')
+                return MTime.of(r) if isinstance(r, _dt.datetime) else r
+            raise Undecidable(f'`{norm(e)[:60]}`: method {attr} of a time')
+        if isinstance(recv, PurePosixPath):
+            if attr in PATH_TRUE and not args:
+                return True
+            if attr in PATH_SELF:
+                return recv
+        for t, allowed in PURE_METHODS.items():
+            if isinstance(recv, t) and attr in allowed:
+                try:
+                    return getattr(recv, attr)(*args, **kwargs)
+                except Exception as ex:
+                    raise _Raised(f'{type(ex).__name__}: {ex}', fi, e.lineno)
+        raise Undecidable(f'`{norm(e)[:60]}`: method {attr} of {type(recv).__name__}')
+
+    def dataset_method(self, ds, attr, args, kwargs, e, fi):
+        if attr == 'close' and not args:
+            (ds if isinstance(ds, MFile) else ds.file).closed = True
+            return None
+        if attr in ('load', 'compute', 'persist', 'copy', 'unify_chunks', 'chunk', '__enter__'):
+            return ds
+        if attr == 'isel':
+            idx = dict(kwargs)
+            idx.pop('drop', None)
+            if args:
+                if len(args) != 1 or not isinstance(args[0], dict):
+                    raise Undecidable(f'`{norm(e)[:60]}`')
+                idx.update(args[0])
+            if set(idx) != {TIME_DIM}:
+                raise Undecidable(f'`{norm(e)[:60]}` selects along {sorted(map(str, idx))}')
+            i = idx[TIME_DIM]
+            if isinstance(ds, MSlice) or not ds.has_time:
+                raise _Raised(f'ValueError: `{norm(e)[:60]}`: the dataset has no dimension {TIME_DIM}', fi, e.lineno)
+            if isinstance(i, bool) or not isinstance(i, int):
+                raise Undecidable(f'`{norm(e)[:60]}`: the index along {TIME_DIM} is not an integer the model knows')
+            return MSlice(ds, i, self.query, (fi, e.lineno))
+        if attr in ('get', '__getitem__') and len(args) >= 1 and isinstance(args[0], str):
+            return MField(ds, args[0])
+        if attr == 'interp':
+            return self._interp_ds(ds, e, fi)
+        raise Undecidable(f'`{norm(e)[:60]}`: method {attr} of a dataset')
+
+    def _interp_ds(self, ds, e, fi):
+        # the whole dataset interpolated at once: both components come from it
+        for var in ('u', 'v'):
+            self.log.append((self.query, var, ds, fi, e.lineno))
+        return OPQV
+
+    def apply(self, f, args, kwargs, e, fi):
+        if isinstance(f, MFn):
+            return self.call_fi(f.fi, args, kwargs, recv=f.recv)
+        if isinstance(f, MClass):
+            return self.construct(f.ci, args, kwargs)
+        if isinstance(f, MExt):
+            return self.ext_call(f, args, kwargs, e, fi)
+        if isinstance(f, _Opq):
+            return OPQV
+        raise Undecidable(f'`{norm(e)[:60]}`: call of {type(f).__name__}')
+
+    # -- expressions -------------------------------------------------------------------------------------------
+    def truth(self, v):
+        if isinstance(v, _Opq):
+            return OPQV
+        if isinstance(v, (MObj, MFile, MSlice, MFn, MClass, MExt, MTime, PurePosixPath)):
+            return True
+        if isinstance(v, MField):
+            return OPQV
+        return bool(v)
+
+    def ev(self, e, fi, env):
+        self.steps += 1
+        if self.steps > self.BUDGET:
+            raise Undecidable('step budget of the query model exhausted')
+        ev = lambda x: self.ev(x, fi, env)
+        if isinstance(e, ast.Constant):
+            return e.value
+        if isinstance(e, ast.Name):
+            return self.lookup(e.id, fi, env)
+        if isinstance(e, ast.Attribute):
+            return self.getattr_(ev(e.value), e.attr, e, fi)
+        if isinstance(e, ast.Call):
+            args, kwargs = [], {}
+            for a in e.args:
+                if isinstance(a, ast.Starred):
+                    v = ev(a.value)
+                    if not isinstance(v, (tuple, list)):
+                        raise Undecidable(f'`{norm(e)[:60]}`: * of a value the model does not know')
+                    args.extend(v)
+                else:
+                    args.append(ev(a))
+            for k in e.keywords:
+                if k.arg is None:
+                    v = ev(k.value)
+                    if not isinstance(v, dict):
+                        raise Undecidable(f'`{norm(e)[:60]}`: ** of a value the model does not know')
+                    kwargs.update(v)
+                else:
+                    kwargs[k.arg] = ev(k.value)
+            if isinstance(e.func, ast.Attribute):
+                if isinstance(e.func.value, ast.Call) and call_name(e.func.value) == 'super' and not e.func.value.args and fi.cls is not None:
+                    for c in fi.cls.mro()[1:]:
+                        if e.func.attr in c.methods:
+                            return self.call_fi(c.methods[e.func.attr], args, kwargs, recv=env.get('self'))
+                    if e.func.attr == '__init__':
+                        return None
+                    raise Undecidable(f'`{norm(e)[:60]}`')
+                return self.method(ev(e.func.value), e.func.attr, args, kwargs, e, fi)
+            return self.apply(ev(e.func), args, kwargs, e, fi)
+        if isinstance(e, ast.BoolOp):
+            short = isinstance(e.op, ast.Or)
+            v = None
+            unknown = False
+            for x in e.values:
+                v = ev(x)
+                t = self.truth(v)
+                if t is OPQV:
+                    unknown = True
+                    continue
+                if t is short:
+                    return OPQV if unknown else v
+            return OPQV if unknown else v
+        if isinstance(e, ast.UnaryOp):
+            v = ev(e.operand)
+            if isinstance(e.op, ast.Not):
+                t = self.truth(v)
+                return OPQV if t is OPQV else not t
+            if isinstance(v, (int, float)) and not isinstance(v, bool):
+                return -v if isinstance(e.op, ast.USub) else v
+            if isinstance(v, bool) and isinstance(e.op, ast.Invert):
+                return not v        # ~ of an element-wise test
+            return OPQV
+        if isinstance(e, ast.Compare):
+            left = ev(e.left)
+            res = True
+            for op, c in zip(e.ops, e.comparators):
+                right = ev(c)
+                r = self.compare(op, left, right, e, fi)
+                if r is OPQV:
+                    res = OPQV
+                elif not r:
+                    return False
+                left = right
+            return res
+        if isinstance(e, ast.BinOp):
+            a, b = ev(e.left), ev(e.right)
+            if isinstance(e.op, ast.Div) and isinstance(a, PurePosixPath) and isinstance(b, (str, PurePosixPath)):
+                return a / b
+            if isinstance(a, (_Opq, MField)) or isinstance(b, (_Opq, MField)):
+                return OPQV
+            if isinstance(e.op, ast.Mod) and isinstance(a, str):
+                try:
+                    return a % b
+                except Exception as ex:
+                    raise _Raised(f'{type(ex).__name__}: {ex}', fi, e.lineno)
+            plain = (int, float, str, tuple, list, _dt.timedelta, _dt.date)
+            if isinstance(a, plain) and isinstance(b, plain):
+                import operator
+                f = {ast.Add: operator.add, ast.Sub: operator.sub, ast.Mult: operator.mul, ast.Div: operator.truediv,
+                     ast.FloorDiv: operator.floordiv, ast.Mod: operator.mod, ast.Pow: operator.pow}.get(type(e.op))
+                if f is not None:
+                    try:
+                        r = f(a, b)
+                    except Exception as ex:
+                        raise _Raised(f'{type(ex).__name__}: {ex}', fi, e.lineno)
+                    return MTime.of(r) if isinstance(r, _dt.datetime) else r
+            raise Undecidable(f'`{norm(e)[:60]}`')
+        if isinstance(e, ast.IfExp):
+            t = self.truth(ev(e.test))
+            if t is OPQV:
+                a, b = ev(e.body), ev(e.orelse)
+                return a if a is b else OPQV
+            return ev(e.body if t else e.orelse)
+        if isinstance(e, ast.Subscript):
+            v = ev(e.value)
+            if isinstance(e.slice, ast.Slice):
+                if isinstance(v, (str, tuple, list)):
+                    lo, hi, st = ((ev(x) if x is not None else None) for x in (e.slice.lower, e.slice.upper, e.slice.step))
+                    if all(x is None or isinstance(x, int) for x in (lo, hi, st)):
+                        return v[lo:hi:st]
+                if isinstance(v, _Opq):
+                    return OPQV
+                raise Undecidable(f'`{norm(e)[:60]}`')
+            k = ev(e.slice)
+            if isinstance(v, (MFile, MSlice)):
+                if isinstance(k, str):
+                    return MField(v, k)
+                raise Undecidable(f'`{norm(e)[:60]}`: subscript of a dataset')
+            if isinstance(v, (_Opq, MField)):
+                return OPQV
+            if v is None:
+                raise _Raised("TypeError: 'NoneType' object is not subscriptable", fi, e.lineno)
+            if isinstance(v, (tuple, list, dict, str)):
+                try:
+                    return v[k]
+                except Exception as ex:
+                    raise _Raised(f'{type(ex).__name__}: {ex}', fi, e.lineno)
+            raise Undecidable(f'`{norm(e)[:60]}`')
+        if isinstance(e, (ast.Tuple, ast.List, ast.Set)):
+            items = []
+            for x in e.elts:
+                if isinstance(x, ast.Starred):
+                    v = ev(x.value)
+                    if not isinstance(v, (tuple, list)):
+                        raise Undecidable(f'`{norm(e)[:60]}`')
+                    items.extend(v)
+                else:
+                    items.append(ev(x))
+            return tuple(items) if isinstance(e, ast.Tuple) else items if isinstance(e, ast.List) else set(items)
+        if isinstance(e, ast.Dict):
+            d = {}
+            for k, v in zip(e.keys, e.values):
+                if k is None:
+                    x = ev(v)
+                    if not isinstance(x, dict):
+                        raise Undecidable(f'`{norm(e)[:60]}`')
+                    d.update(x)
+                else:
+                    d[ev(k)] = ev(v)
+            return d
+        if isinstance(e, ast.JoinedStr):
+            out = []
+            for v in e.values:
+                if isinstance(v, ast.Constant):
+                    out.append(str(v.value))
+                    continue
+                x = ev(v.value)
+                if isinstance(x, (_Opq, MObj, MFile, MSlice, MField, MExt, MFn, MClass)):
+                    return OPQV
+                spec = ''
+                if v.format_spec is not None:
+                    spec = ev(v.format_spec)
+                    if not isinstance(spec, str):
+                        return OPQV
+                try:
+                    out.append(format(x if v.conversion == -1 else (str(x) if v.conversion == 115 else repr(x)), spec))
+                except Exception as ex:
+                    raise _Raised(f'{type(ex).__name__}: {ex}', fi, e.lineno)
+            return ''.join(out)
+        if isinstance(e, ast.NamedExpr):
+            v = ev(e.value)
+            env[e.target.id] = v
+            return v
+        if isinstance(e, (ast.ListComp, ast.GeneratorExp, ast.SetComp, ast.DictComp)) and len(e.generators) == 1:
+            g = e.generators[0]
+            it = ev(g.iter)
+            if isinstance(it, dict):
+                it = list(it)
+            if not isinstance(it, (tuple, list, set)):
+                raise Undecidable(f'`{norm(e)[:60]}`: iteration over a value the model does not know')
+            out = []
+            sub = dict(env)
+            for item in it:
+                self.assign(g.target, item, fi, sub, e)
+                ts = [self.truth(self.ev(c, fi, sub)) for c in g.ifs]
+                if any(t is OPQV for t in ts):
+                    raise Undecidable(f'`{norm(e)[:60]}`: filter the model cannot decide')
+                if all(ts):
+                    out.append((self.ev(e.key, fi, sub), self.ev(e.value, fi, sub)) if isinstance(e, ast.DictComp) else self.ev(e.elt, fi, sub))
+            return dict(out) if isinstance(e, ast.DictComp) else set(out) if isinstance(e, ast.SetComp) else out
+        raise Undecidable(f'`{norm(e)[:60]}`: {type(e).__name__} is not modelled')
+
+    def compare(self, op, a, b, e, fi):
+        if isinstance(op, (ast.Is, ast.IsNot)):
+            if a is None or b is None:
+                r = a is b
+            elif isinstance(a, _Opq) or isinstance(b, _Opq):
+                return OPQV
+            elif isinstance(a, (bool, MObj, MFile, MSlice)) or isinstance(b, (bool, MObj, MFile, MSlice)):
+                r = a is b
+            else:
+                return OPQV
+            return r == isinstance(op, ast.Is)
+        if isinstance(op, (ast.In, ast.NotIn)):
+            if isinstance(b, (MFile, MSlice)):
+                b = tuple(self.getattr_(b, 'coords', e, fi)) + ('t', 'u', 'v')
+            if isinstance(a, _Opq) or isinstance(b, _Opq):
+                return OPQV
+            if isinstance(b, (tuple, list, set, frozenset, dict, str)):
+                try:
+                    r = a in b
+                except TypeError:
+                    raise Undecidable(f'`{norm(e)[:60]}`')
+                return r == isinstance(op, ast.In)
+            raise Undecidable(f'`{norm(e)[:60]}`')
+        if isinstance(a, (_Opq, MField)) or isinstance(b, (_Opq, MField)):
+            return OPQV
+        if isinstance(op, (ast.Eq, ast.NotEq)):
+            if isinstance(a, (MObj, MFile, MSlice)) or isinstance(b, (MObj, MFile, MSlice)):
+                r = a is b
+            else:
+                r = a == b
+            return r == isinstance(op, ast.Eq)
+        import operator
+        f = {ast.Lt: operator.lt, ast.LtE: operator.le, ast.Gt: operator.gt, ast.GtE: operator.ge}.get(type(op))
+        try:
+            return bool(f(a, b))
+        except Exception:
+            raise Undecidable(f'`{norm(e)[:60]}`')
+
+    # -- statements --------------------------------------------------------------------------------------------
+    def assign(self, t, v, fi, env, st):
+        if isinstance(t, ast.Name):
+            env[t.id] = v
+        elif isinstance(t, ast.Attribute):
+            o = self.ev(t.value, fi, env)
+            if not isinstance(o, MObj):
+                if isinstance(o, _Opq):
+                    return
+                raise Undecidable(f'`{norm(t)[:60]} = ...`: store into {type(o).__name__}')
+            o.attrs[t.attr] = v
+            if isinstance(v, (MFile, MSlice)):
+                v.kept = (o.ci.name, t.attr, fi, getattr(st, 'lineno', 0))
+        elif isinstance(t, (ast.Tuple, ast.List)):
+            if isinstance(v, _Opq):
+                for x in t.elts:
+                    self.assign(x.value if isinstance(x, ast.Starred) else x, OPQV, fi, env, st)
+                return
+            if not isinstance(v, (tuple, list)) or len(v) != len(t.elts) or any(isinstance(x, ast.Starred) for x in t.elts):
+                raise Undecidable(f'`{norm(t)[:60]} = ...`: unpacking the model does not follow')
+            for x, item in zip(t.elts, v):
+                self.assign(x, item, fi, env, st)
+        elif isinstance(t, ast.Subscript):
+            o, k = self.ev(t.value, fi, env), self.ev(t.slice, fi, env)
+            if isinstance(o, (dict, list)):
+                try:
+                    o[k] = v
+                except Exception as ex:
+                    raise _Raised(f'{type(ex).__name__}: {ex}', fi, getattr(st, 'lineno', 0))
+                if isinstance(v, (MFile, MSlice)):
+                    v.kept = ('', norm(t.value), fi, getattr(st, 'lineno', 0))
+            elif not isinstance(o, _Opq):
+                raise Undecidable(f'`{norm(t)[:60]} = ...`')
+        else:
+            raise Undecidable(f'`{norm(t)[:60]} = ...`')
+
+    def pattern(self, p, v, fi, env, st):
+        if isinstance(p, ast.MatchAs):
+            if p.pattern is not None:
+                hit = self.pattern(p.pattern, v, fi, env, st)
+                if hit is not True:
+                    return hit
+            if p.name:
+                env[p.name] = v
+            return True
+        if isinstance(p, ast.MatchOr):
+            res = False
+            for q in p.patterns:
+                hit = self.pattern(q, v, fi, env, st)
+                if hit is True:
+                    return True
+                if hit is OPQV:
+                    res = OPQV
+            return res
+        if isinstance(v, (_Opq, MField)):
+            return OPQV
+        if isinstance(p, ast.MatchSingleton):
+            return v is p.value
+        if isinstance(p, ast.MatchValue):
+            return self.compare(ast.Eq(), v, self.ev(p.value, fi, env), st, fi)
+        raise Undecidable(f'`case {norm(p)[:40]}` is not modelled')
+
+    def touches_state(self, stmts, fi, env):
+        for s in stmts:
+            for x in ast.walk(s):
+                if isinstance(x, (ast.Return, ast.Break, ast.Continue, ast.Global, ast.Nonlocal, ast.Delete)):
+                    return True
+                if isinstance(x, (ast.Attribute, ast.Subscript)) and isinstance(x.ctx, (ast.Store, ast.Del)):
+                    return True
+                if isinstance(x, ast.Call):
+                    root = x.func
+                    while isinstance(root, (ast.Attribute, ast.Subscript, ast.Call)):
+                        root = root.func if isinstance(root, ast.Call) else root.value
+                    if isinstance(root, ast.Name):
+                        v = env.get(root.id)
+                        if isinstance(v, (MObj, MFile, MSlice, dict, list, set)):
+                            return True
+                        if root.id not in env and isinstance(self.lookup(root.id, fi, {}), (MFn, MClass)):
+                            return True
+        return False
+
+    def block(self, stmts, fi, env):
+        for st in stmts:
+            self.stmt(st, fi, env)
+
+    def stmt(self, st, fi, env):
+        self.steps += 1
+        if isinstance(st, ast.Expr):
+            if not isinstance(st.value, ast.Constant):
+                self.ev(st.value, fi, env)
+        elif isinstance(st, ast.Assign):
+            v = self.ev(st.value, fi, env)
+            for t in st.targets:
+                self.assign(t, v, fi, env, st)
+        elif isinstance(st, ast.AnnAssign):
+            if st.value is not None:
+                self.assign(st.target, self.ev(st.value, fi, env), fi, env, st)
+        elif isinstance(st, ast.AugAssign):
+            load = _cp(st.target)
+            for x in ast.walk(load):
+                if hasattr(x, 'ctx'):
+                    x.ctx = ast.Load()
+            self.assign(st.target, self.ev(ast.copy_location(ast.BinOp(load, st.op, st.value), st), fi, env), fi, env, st)
+        elif isinstance(st, ast.If):
+            t = self.truth(self.ev(st.test, fi, env))
+            if t is OPQV:
+                # a test on the numbers of the query (a point inside the domain, finite values): a branch that only
+                # refuses is not taken; other branches may only compute further numbers
+                live = [b for b in (st.body, st.orelse) if not (b and isinstance(b[-1], ast.Raise) and not self.touches_state(b[:-1], fi, env))]
+                if any(self.touches_state(b, fi, env) for b in live):
+                    raise Undecidable(f'`if {norm(st.test)[:60]}`: a test on values of the environment decides what happens to the state')
+                for b in live:
+                    for x in (y for s_ in b for y in ast.walk(s_)):
+                        if isinstance(x, ast.Name) and isinstance(x.ctx, ast.Store):
+                            env[x.id] = OPQV
+            else:
+                self.block(st.body if t else st.orelse, fi, env)
+        elif isinstance(st, ast.Return):
+            raise _Return(self.ev(st.value, fi, env) if st.value is not None else None)
+        elif isinstance(st, ast.Raise):
+            raise _Raised(norm(st)[:100], fi, st.lineno)
+        elif isinstance(st, ast.Assert):
+            t = self.truth(self.ev(st.test, fi, env))
+            if t is False:
+                raise _Raised(f'AssertionError: `{norm(st.test)[:80]}`', fi, st.lineno)
+        elif isinstance(st, (ast.Pass, ast.Import, ast.ImportFrom)):
+            if not isinstance(st, ast.Pass):
+                for al in st.names:
+                    full = (('.' * st.level + (st.module or '') + '.') if isinstance(st, ast.ImportFrom) else '') + al.name
+                    env[(al.asname or al.name).split('.')[0]] = MExt(full if isinstance(st, ast.ImportFrom) or al.asname else al.name.split('.')[0])
+        elif isinstance(st, ast.With):
+            opened = []
+            for it in st.items:
+                v = self.ev(it.context_expr, fi, env)
+                if isinstance(v, (MFile, MSlice)):
+                    opened.append(v)
+                elif not isinstance(v, _Opq):
+                    raise Undecidable(f'`with {norm(it.context_expr)[:60]}`')
+                if it.optional_vars is not None:
+                    self.assign(it.optional_vars, v, fi, env, st)
+            try:
+                self.block(st.body, fi, env)
+            finally:
+                for v in opened:
+                    (v if isinstance(v, MFile) else v.file).closed = True
+        elif isinstance(st, ast.For):
+            it = self.ev(st.iter, fi, env)
+            if isinstance(it, dict):
+                it = list(it)
+            if not isinstance(it, (tuple, list, set)):
+                raise Undecidable(f'`for {norm(st.target)} in {norm(st.iter)[:40]}`: iteration over a value the model does not know')
+            broke = False
+            for item in list(it):
+                self.assign(st.target, item, fi, env, st)
+                try:
+                    self.block(st.body, fi, env)
+                except _Loop as lp:
+                    if lp.kind == 'break':
+                        broke = True
+                        break
+            if not broke:
+                self.block(st.orelse, fi, env)
+        elif isinstance(st, ast.While):
+            while True:
+                t = self.truth(self.ev(st.test, fi, env))
+                if t is OPQV:
+                    raise Undecidable(f'`while {norm(st.test)[:60]}`')
+                if not t:
+                    self.block(st.orelse, fi, env)
+                    break
+                try:
+                    self.block(st.body, fi, env)
+                except _Loop as lp:
+                    if lp.kind == 'break':
+                        break
+        elif isinstance(st, ast.Break):
+            raise _Loop('break')
+        elif isinstance(st, ast.Continue):
+            raise _Loop('continue')
+        elif isinstance(st, ast.Try):
+            try:
+                self.block(st.body, fi, env)
+            except _Raised as ex:
+                for h in st.handlers:
+                    names = [] if h.type is None else [norm(x).split('.')[-1] for x in (h.type.elts if isinstance(h.type, ast.Tuple) else [h.type])]
+                    kind = ex.what.split(':')[0].split('(')[0].replace('raise ', '').strip()
+                    if h.type is None or kind in names or 'Exception' in names or 'BaseException' in names:
+                        if h.name:
+                            env[h.name] = OPQV
+                        self.block(h.body, fi, env)
+                        break
+                else:
+                    self.block(st.finalbody, fi, env)
+                    raise
+            else:
+                self.block(st.orelse, fi, env)
+            self.block(st.finalbody, fi, env)
+        elif isinstance(st, ast.Delete):
+            for t in st.targets:
+                if isinstance(t, ast.Name):
+                    env.pop(t.id, None)
+                elif isinstance(t, ast.Attribute):
+                    o = self.ev(t.value, fi, env)
+                    if isinstance(o, MObj):
+                        o.attrs.pop(t.attr, None)
+                elif isinstance(t, ast.Subscript):
+                    o, k = self.ev(t.value, fi, env), self.ev(t.slice, fi, env)
+                    if isinstance(o, (dict, list)):
+                        try:
+                            del o[k]
+                        except Exception as ex:
+                            raise _Raised(f'{type(ex).__name__}: {ex}', fi, st.lineno)
+        elif isinstance(st, ast.Match):
+            subj = self.ev(st.subject, fi, env)
+            for case in st.cases:
+                hit = self.pattern(case.pattern, subj, fi, env, st)
+                if hit and case.guard is not None:
+                    hit = self.truth(self.ev(case.guard, fi, env))
+                if hit is OPQV:
+                    raise Undecidable(f'`match {norm(st.subject)[:40]}`: a case the model cannot decide')
+                if hit:
+                    self.block(case.body, fi, env)
+                    break
+        else:
+            raise Undecidable(f'{type(st).__name__} at line {st.lineno} is not modelled')
+
+
+def _walk_state(roots, leaf, make):
+    """rebuild (make=True) or serialise (make=False) the object graph reachable from `roots`"""
+    memo = {}
+    order = []
+
+    def go(v):
+        if isinstance(v, (MObj, MFile, MSlice, MField, dict, list, set)) or (isinstance(v, MFn) and v.recv is not None) \
+                or (isinstance(v, tuple) and v):
+            k = id(v)
+            if k in memo:
+                return memo[k] if make else ('ref', memo[k])
+            if not make:
+                memo[k] = len(memo)
+            if isinstance(v, MObj):
+                if make:
+                    n = memo[k] = MObj(v.ci)
+                    n.attrs = {a: go(x) for a, x in v.attrs.items()}
+                    return n
+                return ('obj', v.ci.file, v.ci.name, tuple((a, go(x)) for a, x in sorted(v.attrs.items())))
+            if isinstance(v, MFile):
+                if make:
+                    n = memo[k] = MFile(v.path, v.has_time, v.born, v.site)
+                    n.closed, n.kept = v.closed, v.kept
+                    return n
+                return ('file', v.path, v.has_time, v.closed)
+            if isinstance(v, MSlice):
+                if make:
+                    n = memo[k] = MSlice(go(v.file), v.idx, v.born, v.site)
+                    n.kept = v.kept
+                    return n
+                return ('slice', go(v.file), v.idx)
+            if isinstance(v, MField):
+                if make:
+                    n = memo[k] = MField(go(v.ds), v.var)
+                    return n
+                return ('field', go(v.ds), v.var)
+            if isinstance(v, MFn):
+                if make:
+                    n = memo[k] = MFn(v.fi, go(v.recv))
+                    return n
+                return ('fn', v.fi.file, v.fi.qualname, go(v.recv))
+            if isinstance(v, dict):
+                if make:
+                    n = memo[k] = {}
+                    for kk, x in v.items():
+                        n[go(kk)] = go(x)
+                    return n
+                return ('dict', tuple((go(kk), go(x)) for kk, x in v.items()))
+            if isinstance(v, list):
+                if make:
+                    n = memo[k] = []
+                    n.extend(go(x) for x in v)
+                    return n
+                return ('list', tuple(go(x) for x in v))
+            if isinstance(v, set):
+                if make:
+                    n = memo[k] = set()
+                    n.update(go(x) for x in v)
+                    return n
+                return ('set', tuple(sorted((go(x) for x in v), key=repr)))
+            if make:
+                n = memo[k] = tuple(go(x) for x in v)
+                return n
+            return ('tuple', tuple(go(x) for x in v))
+        return v if make else leaf(v)
+    return [go(r) for r in roots]
+
+
+def _leaf(v):
+    if isinstance(v, (MExt,)):
+        return ('ext', v.dotted)
+    if isinstance(v, MFn):
+        return ('fn', v.fi.file, v.fi.qualname)
+    if isinstance(v, MClass):
+        return ('class', v.ci.file, v.ci.name)
+    if isinstance(v, _Opq):
+        return 'opaque'
+    return (type(v).__name__, repr(v))
+
+
+class _State:
+    """the program's state between two queries: the weather object, the module- and class-level values, the tables
+    of memoised functions - and the queries that led to it"""
+
+    def __init__(self, w, consts, memo, history):
+        self.w, self.consts, self.memo, self.history = w, consts, memo, history
+
+    def copy(self):
+        w, consts, memo = _walk_state([self.w, self.consts, self.memo], None, True)
+        return _State(w, consts, memo, self.history)
+
+    def fingerprint(self):
+        return repr(_walk_state([self.w, self.consts, self.memo], _leaf, False))
+
+
+# times of the queries: they separate what a cache key can confuse
+QUERY_TIMES = (
+    MTime(2024, 1, 5, 13, 0),       # the reference point
+    MTime(2024, 1, 5, 13, 40),      # same hour, other minute (rounds to the next hour)
+    MTime(2024, 1, 5, 17, 0),       # same day, other hour
+    MTime(2024, 1, 6, 13, 0),       # next day, same hour
+    MTime(2024, 1, 6, 9, 20),       # next day, other hour
+    MTime(2024, 2, 5, 13, 0),       # same day of the month and hour, other month
+    MTime(2025, 1, 5, 13, 0),       # same month, day and hour, other year
+)
+DATA_DIR = '/wx'
+DEPTH = 3
+MAX_STATES = 400
+
+
+def _file_of(t):
+    return t.strftime('%Y%m%d') + '.nc'
+
+
+def rule_dataset_of_query(ctx, gs):
+    """The states an object can be in after up to DEPTH queries are explored breadth-first (states that are equal -
+    same values, same sharing - are explored once); in every state every query time is asked."""
+    prog = ctx.prog
+    if gs.cls is None:
+        ctx.undecided('C16-R6', gs, 'get_ground_speed', 'is not a method of a class any more')
+    need = ('time', 'gt_point', 'altitude', 'true_airspeed')
+    if any(p not in gs.params for p in need):
+        ctx.undecided('C16-R6', gs, 'parameters', f'get_ground_speed no longer takes {[p for p in need if p not in gs.params]}')
+    bad = {}        # kind -> (length of the history, message, function, line)
+    checked = queries = states = 0
+    files = sorted({_file_of(t) for t in QUERY_TIMES})
+    # which files have a time axis: all, none, and every way of mixing the reference day with the others
+    ref = _file_of(QUERY_TIMES[0])
+    mixes = [{f: a for f in files} for a in (True, False)] + [{f: (f == ref) == a for f in files} for a in (True, False)] + \
+        [{f: (i % 2 == 0) == a for i, f in enumerate(files)} for a in (True, False)]
+    try:
+        for has_time in mixes:
+            fresh = {}      # time -> what the first query of a new object interpolates in
+            qm = QueryModel(prog, has_time)
+            try:
+                w = qm.construct(gs.cls, [DATA_DIR], {})
+            except _Raised as ex:
+                raise Undecidable(f'{gs.cls.name}({DATA_DIR!r}) raises {ex.what} in the query model')
+            frontier = [_State(w, qm._consts, qm._memo, ())]
+            seen = {frontier[0].fingerprint()}
+            for depth in range(DEPTH):
+                nxt = []
+                for state in frontier:
+                    states += 1
+                    for t in QUERY_TIMES:
+                        st = state.copy()
+                        qm = QueryModel(prog, has_time)
+                        qm._consts, qm._memo = st.consts, st.memo
+                        seq = state.history + (t,)
+                        qi = qm.query = len(state.history)
+                        queries += 1
+                        try:
+                            qm.call_fi(gs, [], {'time': t, 'gt_point': OPQV, 'altitude': OPQV, 'true_airspeed': OPQV}, recv=st.w)
+                        except _Raised as ex:
+                            _note(bad, ('raise', ex.what), qi, f'{_history(seq, qi, has_time)} raises {ex.what}', ex.fi or gs, ex.line)
+                            continue
+                        got = {(var, _describe(ds)): (ds, f, ln) for q, var, ds, f, ln in qm.log}
+                        name = _file_of(t)
+                        want = ('slice', f'{DATA_DIR}/{name}', t.hour) if has_time[name] else ('file', f'{DATA_DIR}/{name}', None)
+                        if qi == 0:
+                            fresh[t] = {d for (v, d) in got}
+                        for var in ('u', 'v'):
+                            found = [(d, info) for (v, d), info in got.items() if v == var]
+                            if not found:
+                                ctx.undecided('C16-R6', gs, f"interpolation of '{var}'", f'not found by the query model ({_history(seq, qi, has_time)})')
+                            checked += 1
+                            for d, (ds, f, ln) in found:
+                                if d != want and not (qi > 0 and d in fresh.get(t, ())):
+                                    # (a dataset that a new object would use for this query as well is reported there)
+                                    _judge(bad, seq, qi, has_time, var, ds, d, want, f, ln)
+                        st.history = seq
+                        fp = st.fingerprint()
+                        if fp not in seen and depth + 1 < DEPTH:
+                            seen.add(fp)
+                            nxt.append(st)
+                frontier = nxt
+                if len(seen) > MAX_STATES:
+                    ctx.undecided('C16-R6', gs, 'dataset of a query', f'more than {MAX_STATES} different states after {depth + 1} queries')
+    except Undecidable as ex:
+        ctx.undecided('C16-R6', gs, 'dataset of a query', str(ex))
+    except RecursionError:
+        ctx.undecided('C16-R6', gs, 'dataset of a query', 'recursion in the query model')
+    except (TypeError, KeyError, AttributeError, ValueError, IndexError) as ex:
+        ctx.undecided('C16-R6', gs, 'dataset of a query', f'the query model cannot execute the program ({type(ex).__name__}: {ex})')
+    if not bad:
+        # at the least every time is asked of a new object (an implementation that keeps nothing has that one state)
+        ctx.floor('C16-R6', checked, 2 * len(mixes) * len(QUERY_TIMES), 'wind interpolations judged over query sequences')
+        ctx.ob('C16-R6', gs, 'a query reads the wind from the file of its day, at its hour', True,
+               f'{queries} queries asked in the {states} states an object reaches within {DEPTH} queries (same / other minute, hour, day, '
+               f'month, year; files with and without a time axis): every interpolation is in YYYYMMDD.nc of the query time, '
+               f'sliced at time.hour when the file has a time axis')
+    for kind, (qi, msg, f, ln) in sorted(bad.items(), key=lambda kv: str(kv[0])):
+        ctx.ob('C16-R6', f, _KIND_TEXT.get(kind[0], kind[0]), False, msg, line=ln)
+
+
+_KIND_TEXT = {
+    'first-hour': 'hourly slice is the one of time.hour',
+    'first-file': 'the file opened is YYYYMMDD.nc of the query time',
+    'first-axis': 'a file with a time axis is sliced, a file without is used whole',
+    'stale-file': 'opening another file invalidates the slice',
+    'stale-hour': 'hourly slice cached under the hour it was cut for',
+    'stale-day': 'the open file is reused only for times of its own day',
+    'stale-axis': 'a cached slice is not used for a file that is used whole (and the reverse)',
+    'raise': 'a valid query is answered',
+}
+
+
+def _history(seq, qi, has_time):
+    def one(t):
+        return f'{t.show()} ({_file_of(t)} {"with" if has_time[_file_of(t)] else "without"} time axis)'
+    if qi == 0:
+        return f'the first query on a new object, for {one(seq[0])},'
+    return f'after {"queries" if qi > 1 else "a query"} for {" and ".join(one(t) for t in seq[:qi])}, the query for {one(seq[qi])}'
+
+
+def _note(bad, kind, qi, msg, f, ln):
+    """one finding per kind of mistake, shown on the shortest history that exhibits it"""
+    if kind not in bad or bad[kind][0] > qi:
+        bad[kind] = (qi, msg, f, ln)
+
+
+def _judge(bad, seq, qi, has_time, var, ds, got, want, f, ln):
+    """classify a wrong dataset: a mistake of a single query (made on a fresh object too) or a stale cache"""
+    born = ds.born if isinstance(ds, (MFile, MSlice)) else qi
+    file_born = ds.file.born if isinstance(ds, MSlice) else born
+    hist = _history(seq, qi, has_time)
+    st = getattr(ds, 'kept', None)
+    kept = f' (kept in `{st[1]}` by {st[2].qualname}, line {st[3]})' if st else ''
+    if st and born < qi:
+        f, ln = st[2], st[3]                  # where the dataset used again was put into the state
+    elif isinstance(ds, (MFile, MSlice)) and ds.site[0] is not None:
+        f, ln = ds.site                       # where this query made the dataset
+    if got[0] == 'other':
+        _note(bad, ('first-axis', 'other'), qi, *(f"{hist} interpolates '{var}' in something that is not the weather dataset", f, ln))
+        return
+    same_file = got[1] == want[1]
+    if born == qi or (file_born == qi and isinstance(ds, MSlice) and ds.born == qi):
+        # made by this very query
+        if not same_file and file_born == qi:
+            _note(bad, ('first-file',), qi, *(f"{hist} opens {got[1]}: the weather of {seq[qi].show()} is in {want[1]}", f, ln))
+        elif not same_file:
+            _note(bad, ('stale-day',), qi, *(f"{hist} slices the file {got[1].rsplit('/', 1)[-1]} opened by an earlier query instead of opening "
+                                            f"{want[1].rsplit('/', 1)[-1]}: the open file is reused for a time that is not of its day", f, ln))
+        elif got[0] != want[0]:
+            _note(bad, ('first-axis', got[0]), qi, *(f"{hist} interpolates '{var}' in {_say(got)}, it must be {_say(want)}", f, ln))
+        else:
+            _note(bad, ('first-hour',), qi, *(f"{hist} interpolates '{var}' in {_say(got)}: the field for the query is the one at index time.hour = {want[2]} "
+                                             f"(the field at or before the requested time)", f, ln))
+        return
+    # a dataset made by an earlier query is used again
+    made = seq[born].show()
+    if not same_file:
+        if isinstance(ds, MSlice):
+            _note(bad, ('stale-file',), qi, *(
+                f"{hist} interpolates '{var}' in {_say(got)}, cut by the query for {made}{kept}; it must be {_say(want)}. "
+                f"The cached slice is still accepted although the file it was cut from is not the file of this query: "
+                f"a slice of the previous day survives opening a new file (nothing clears it, and its key is the hour alone)", f, ln))
+        else:
+            _note(bad, ('stale-day',), qi, *(
+                f"{hist} interpolates '{var}' in {_say(got)}, opened by the query for {made}{kept}; it must be {_say(want)}. "
+                f"The open file is reused for a time that is not of its day", f, ln))
+    elif got[0] != want[0]:
+        _note(bad, ('stale-axis', got[0]), qi, *(f"{hist} interpolates '{var}' in {_say(got)}, made by the query for {made}{kept}; it must be {_say(want)}", f, ln))
+    else:
+        _note(bad, ('stale-hour',), qi, *(
+            f"{hist} interpolates '{var}' in {_say(got)}, cut by the query for {made}{kept}; it must be {_say(want)}. "
+            f"The slice cache key and the slice index disagree, or the slice is reused without comparing the hour: a later query reuses the wrong hour", f, ln))
+
+
 def run(ctx):
     prog = ctx.prog
     m = prog.module(W)
     gs = m.func('Weather.get_ground_speed')
-    fn = unroll_literal_loops(gs.node)
+    fn = scalarize_local_dicts(unroll_literal_loops(gs.node))
 
     def callee_of(call):
         """helpers of this module are followed; everything else is a primitive"""
@@ -504,19 +2042,8 @@ def run(ctx):
                 o.rule = 'C16-R4'
                 ctx.obligations.append(o)
 
-    # R6 slice cache key
-    rd = m.func('Weather._require_data')
-    src = ' '.join(norm(s) for s in rd.node.body)
-    ok = 'self._ds_time_idx == time.hour' in src and 'isel(valid_time=time.hour)' in src and \
-        'self._ds_time_idx = time.hour' in src
-    ctx.ob('C16-R6', rd, 'hourly slice cached under the hour it was cut for', ok,
-           'slice index, cache key and cache test all use time.hour' if ok else
-           'slice cache key and slice index disagree: a later query reuses the wrong hour')
-    rm = m.func('Weather._require_main_ds')
-    src = ' '.join(norm(s) for s in rm.node.body)
-    ok = 'self._ds = None' in src and 'self._ds_time_idx = None' in src and 'self._ds_date = time' in src
-    ctx.ob('C16-R6', rm, 'opening another file invalidates the slice', ok,
-           'slice and its key cleared before the new file is read' if ok else
-           'a slice of the previous day survives opening a new file')
+    rule_dataset_of_query(ctx, gs)
     ctx.assumptions += ["ERA5 convention: 'u' eastward, 'v' northward wind; pressure_level in hPa",
-                        'xarray interp returns NaN outside the coordinate range']
+                        'xarray interp returns NaN outside the coordinate range',
+                        'config.file_location(p) locates the existing file p (the configuration is environment of the '
+                        'query model, not state of the weather object); files are immutable while the object lives']
